@@ -38,6 +38,7 @@
 #include "dump.h"
 #include "rng.h"
 #include <errno.h>
+#include <fcntl.h>
 #include <unistd.h>
 #include <stdarg.h>
 #include <signal.h>
@@ -707,8 +708,12 @@ static int run_case(const char *caseid, const unsigned char *bytes, size_t len, 
 /* run_case + attribution of leaks to the case: LeakSanitizer only runs when the heap grew over the case */
 static int run_case_lc(const char *caseid, const unsigned char *bytes, size_t len, char mode, unsigned long xflags, int u, const char *path, int size_override, int have_override) {
   size_t before = __sanitizer_get_current_allocated_bytes();
+  unsigned fds_before = 0, fds_after = 0;
+  for (int fd = 0; fd < 1024; fd++) if (fcntl(fd, F_GETFD) != -1) fds_before++;
   int r = run_case(caseid, bytes, len, mode, xflags, u, path, size_override, have_override);
   if (__sanitizer_get_current_allocated_bytes() > before && __lsan_do_recoverable_leak_check()) die("memory leaked by case %s", caseid);
+  for (int fd = 0; fd < 1024; fd++) if (fcntl(fd, F_GETFD) != -1) fds_after++;
+  if (fds_after != fds_before) die("file descriptor leaked by case %s (%u open before, %u after)", caseid, fds_before, fds_after);
   return r;
 }
 
